@@ -217,10 +217,11 @@ class HiddenWorld(World):
     n HiddenTunnelCommunity nodes with production default settings, a shared dictionary DHT and IPv8 stubs.
     """
 
-    def __init__(self, loop: VirtualLoop, n: int, flags: Any = None, auto: bool = True, **settings: Any) -> None:
+    def __init__(self, loop: VirtualLoop, n: int, flags: Any = None, auto: bool = True, net: SimNet | None = None,
+                 **settings: Any) -> None:
         from ipv8.messaging.anonymization.hidden_services import HiddenTunnelCommunity
         self.loop = loop
-        self.net = SimNet(loop, auto=auto)
+        self.net = net if net is not None else SimNet(loop, auto=auto)
         self.trace = KeyTrace()
         self.trace.install()
         self.dht_table: dict = {}
@@ -241,8 +242,14 @@ class HiddenWorld(World):
         self.by_addr = {nd.address: nd for nd in self.nodes}
         self.adapters = []
         self.exit_log = []
-        loop.on_transport = self._on_transport
+        self._prev_on_transport = loop.on_transport
+        loop.on_transport = self._on_transport_chain
         self._tindex = 0
+
+    def _on_transport_chain(self, transport: Any) -> None:
+        if self._prev_on_transport is not None:
+            self._prev_on_transport(transport)
+        self._on_transport(transport)
 
     async def link_e2e(self, seeder: Any, downloader: Any, info_hash: bytes, hops: int = 1, timeout: float = 60.0) -> tuple:
         """
